@@ -478,6 +478,8 @@ func init() {
 		return &CtxV{ms: ex.env.root, height: h, time: ex.tf.BVMul(secs, ex.tf.BVu(1000000000, 64)), chainID: chain,
 			gas: &GasMeterObj{infinite: true, limit: ex.tf.BVu(0, 64), consumed: ex.tf.BVu(0, 64)}, events: &EventMgrObj{}}
 	})
+	reg(rtPkg+"RemountContext", func(ex *Exec, a []Val) Val { return a[0] })
+	reg("github.com/cometbft/cometbft/libs/log.NewNopLogger", func(ex *Exec, a []Val) Val { return nativeIface(&LoggerObj{}) })
 	reg(rtPkg+"NewContextAt", func(ex *Exec, a []Val) Val {
 		h := a[0].(*Term)
 		t := a[1].(TimeV)
